@@ -1,3 +1,5 @@
+pub mod decoders;
+pub mod gen_osu;
 mod out;
 mod proto;
 mod registry;
